@@ -17,6 +17,7 @@ RULE = (
     "sequences of length <=3 (with duplicates -> must raise); empty inputs; every mask in -2..257 and 510; Hypothesis "
     "permutations and longer sequences with a duplicate. Non-trivial = subset with mask < 0x10 or >= 2 days, any "
     "rejected input, any decode; distinct by (form, days) or mask."
+    " first-use-order: in freshly forked processes the encoder is used first (12 different first inputs) and then every mask is decoded, and the other way round."
 )
 ASSUMPTIONS = ["weekday order Monday=0 .. Sunday=6 and bit = 2^(weekday+1) as the statement gives (Monday 0x02 .. Sunday 0x80)"]
 
@@ -151,11 +152,71 @@ def body_enum(rep, case):
             raise Violation("C12/days-bits", {"day": d.name}, [1 << (i + 1), i], [d.bit_rep, d.hex_rep, d.weekday])
 
 
+def body_first_use(rep, case):
+    """Order of first use: in a FRESH process (fork) the encoder is used first with some day sets, then every mask is
+    decoded - or the other way round.  Neither function may learn anything from what the other happened to see first."""
+    import os
+    import pickle
+    Days, tools = _lib()
+    r, w = os.pipe()
+    pid = os.fork()
+    if pid == 0:
+        os.close(r)
+        out = {"errors": []}
+        try:
+            def enc_all():
+                for names in case["encode_first"]:
+                    days = {getattr(Days, n) for n in names}
+                    want = sum(1 << (list(Days).index(d) + 1) for d in days)
+                    got = tools.weekdays_to_hexadecimal(days)
+                    if got != f"{want:02x}":
+                        out["errors"].append(["encode", sorted(names), f"{want:02x}", got])
+
+            def dec_all():
+                for mask in range(2, 255, 2):
+                    want = sorted(d.name for i, d in enumerate(Days) if mask >> (i + 1) & 1)
+                    try:
+                        got = sorted(d.name for d in tools.bit_summary_to_days(mask))
+                    except Exception as exc:  # noqa
+                        got = f"{type(exc).__name__}: {exc}"
+                    if got != want:
+                        out["errors"].append(["decode", mask, want, got])
+            (enc_all(), dec_all()) if case["order"] == "encode-then-decode" else (dec_all(), enc_all())
+        except BaseException as exc:  # noqa
+            out["errors"].append(["crash", repr(exc)])
+        try:
+            os.write(w, pickle.dumps(out))
+        finally:
+            os._exit(0)
+    os.close(w)
+    data = b""
+    while True:
+        chunk = os.read(r, 65536)
+        if not chunk:
+            break
+        data += chunk
+    os.close(r)
+    os.waitpid(pid, 0)
+    out = pickle.loads(data) if data else {"errors": [["crash", "no report from the child"]]}
+    rep.tick("first-use-order", key=case, nontrivial=True, sample=case, labels=(case["order"],))
+    if out["errors"]:
+        e = out["errors"][0]
+        raise Violation(f"C12/{e[0]}-wrong-after-first-use/{case['order']}", dict(case, failing=e[1]), e[2] if len(e) > 2 else None,
+                        e[3] if len(e) > 3 else e[1])
+
+
+def cases_first_use():
+    names = ["MONDAY", "TUESDAY", "WEDNESDAY", "THURSDAY", "FRIDAY", "SATURDAY", "SUNDAY"]
+    firsts = [[[n]] for n in names] + [[["MONDAY", "FRIDAY"]], [["SUNDAY", "MONDAY"]], [names[:3]], [names], [["TUESDAY"], ["THURSDAY", "SATURDAY"]]]
+    return [{"order": o, "encode_first": f} for o in ("encode-then-decode", "decode-then-encode") for f in firsts]
+
+
 def subchecks(tier):
+    extra = [Sub("first-use-order", body_first_use, cases=cases_first_use, shards=2, exhaustive=True)]
     big = tier == "thorough"
     return [
         Sub("encode", body_encode, cases=cases_encode, shards=4, exhaustive=True),
         Sub("decode", body_decode, cases=cases_decode, shards=1, exhaustive=True),
         Sub("days-enum", body_enum, cases=lambda: [{}], shards=1, exhaustive=True),
         Sub("encode-permuted", lambda rep, case: body_encode(rep, case, "encode-permuted"), strategy=strat_encode, n=100_000 if big else 3000, shards=8 if big else 1),
-    ]
+    ] + extra
